@@ -20,14 +20,19 @@ from pdfminer.pdfinterp import PDFContentParser  # noqa: E402
 from pdfminer.pdftypes import PDFStream  # noqa: E402
 from pdfminer.psparser import PSEOF, PSKeyword, PSLiteral  # noqa: E402
 
-FILTER_NAME = {"Flate": "FlateDecode", "LZW": "LZWDecode", "A85": "ASCII85Decode", "AHx": "ASCIIHexDecode",
+FILTER_NAME = {"FlatePNG": "FlateDecode", "Flate": "FlateDecode", "LZW": "LZWDecode", "A85": "ASCII85Decode", "AHx": "ASCIIHexDecode",
                "RL": "RunLengthDecode", "DCT": "DCTDecode", "JPX": "JPXDecode", "JBIG2": "JBIG2Decode", "CCITT": "CCITTFaxDecode"}
 ENC = {"Flate": "Fl", "LZW": "LZW", "A85": "A85", "AHx": "AHx", "RL": "RL"}
 PIX = {"bw": (1, "DeviceGray", 1), "gray": (8, "DeviceGray", 1), "rgb": (8, "DeviceRGB", 3), "cmyk": (8, "DeviceCMYK", 4)}
 
 
-def sample(q):
-    return (3 * q + 1) % 256
+def sample(q, w=1, h=1):
+    """Sample(im, q) of ImageOps.tla"""
+    if w * h <= 25:
+        return (3 * q + 1) % 256
+    if w % 2 == 0:
+        return ((q * q + 7 * q + 11) % 65521) % 256
+    return ((q // 150) * 37 + 5) % 256
 
 
 def bytes_per_line(pk, w):
@@ -36,7 +41,7 @@ def bytes_per_line(pk, w):
 
 
 def image_data(pk, w, h):
-    return bytes(sample(q) for q in range(bytes_per_line(pk, w) * h))
+    return bytes(sample(q, w, h) for q in range(bytes_per_line(pk, w) * h))
 
 
 def pdf_pixels(pk, w, h, data):
@@ -60,11 +65,14 @@ def pdf_pixels(pk, w, h, data):
     return rows
 
 
-def encode_chain(chain, data, variant=0):
-    """/Filter [f1 f2 ..] decodes f1 first: encode in reverse.  DCT/JPX/JBIG2/CCITT payloads are opaque blobs."""
+def encode_chain(chain, data, variant=0, png=None):
+    """/Filter [f1 f2 ..] decodes f1 first: encode in reverse.  DCT/JPX/JBIG2/CCITT payloads are opaque blobs.
+    png = (colors, columns, bits) for the FlatePNG layer (PNG predictor, row filter types cycling through all five)."""
     out = data
     for f in reversed(chain):
-        if f in ENC:
+        if f == "FlatePNG":
+            out = zlib.compress(K.png_predict(out, png[0], png[1], png[2], [0, 1, 2, 3, 4]))
+        elif f in ENC:
             out = K.encode_layer(ENC[f], out, variant)
     return out
 
@@ -79,7 +87,16 @@ def image_xobject(pk, w, h, chain, variant=0):
         attrs["Filter"] = [Name(FILTER_NAME[f]) for f in chain]
     if "JBIG2" in chain:
         raise MachineryError("JBIG2 payloads are not realised")
-    return Stream(attrs, encode_chain(chain, image_data(pk, w, h), variant))
+    if "FlatePNG" in chain:
+        parms = [({"Predictor": 15, "Colors": PIX[pk][2], "BitsPerComponent": bits, "Columns": w} if f == "FlatePNG" else None) for f in chain]
+        attrs["DecodeParms"] = parms[0] if len(chain) == 1 else parms
+    data = image_data(pk, w, h)
+    enc = encode_chain(chain, data, variant, png=(PIX[pk][2], w, bits))
+    if len(data) > 4000 and w % 2 == 0 and chain == ["LZW"]:
+        # realiser self-check: the stream must hold a clear-table code in mid-stream (the table filled up)
+        if K.lzw_codes(data).count(256) < 2:
+            raise MachineryError("realiser self-check: the LZW stream of a %dx%d %s image has no table-full clear" % (w, h, pk))
+    return Stream(attrs, enc)
 
 
 def export_doc(imgs, variant=0, pages=1):
